@@ -88,7 +88,8 @@ def mk(n, deps, typ, maxpar, tcache, cached0, req, backend, maxw, cof=True, bust
 
 def family(n: int = 3, *, ntypes: int = 1, maxpars=(UNL,), maxws=(2,), backends=('fork',), cached='none',
            reqs='roots', cofs=(True,), busts=(False,), fails='none', tcache_opts=None,
-           sample: int | None = None, seed: int = 0, nonempty_deps: bool = False) -> list:
+           sample: int | None = None, seed: int = 0, nonempty_deps: bool = False,
+           max_edges: int | None = None) -> list:
     """Enumerate (or sample) a configuration family.
 
     cached: 'none' | 'all-subsets'     fails: 'none' | 'singles' | 'all-subsets'
@@ -96,6 +97,8 @@ def family(n: int = 3, *, ntypes: int = 1, maxpars=(UNL,), maxws=(2,), backends=
     out = []
     for deps in dags(n):
         if nonempty_deps and not any(deps):
+            continue
+        if max_edges is not None and sum(len(d) for d in deps) > max_edges:
             continue
         for typ in type_assignments(n, ntypes):
             nty = max(typ)
